@@ -63,3 +63,33 @@ _m("C08", "call histories on one solver object and on fresh objects, all 15 inte
           "(np.array_equal on every trajectory state captured at the _parse_monitors call sites), monitor records against values "
           "recomputed from the captured state with a fresh discretisation.  non-trivial: trajectories with finite, changing data; "
           "distinct = hash(config, N, M, tsave, monitors).")
+
+_m("C09", "always-on monitor on every outermost step(): classifies the event (scalar model, periodic, reconstruction/limiter, mesh "
+          "uniformity, integrator in {explicit, forwardeuler, rk2_heun, rk3ssp}, effective CFL recomputed from calc_timestep) and "
+          "asserts max/min/TV monotonicity only where the stated preconditions hold.  Workload: convection (either sign) and Burgers, "
+          "3-60 cells, random/step/sawtooth/square/spike/sign-changing/exactly antisymmetric data and u,-u stationary-shock pairs, "
+          "CFL random in (0, limit] and exactly at the limit, 1-30 steps.  non-trivial: non-constant initial data; distinct = "
+          "hash(config + data).")
+
+_m("C10", "always-on monitor on every outermost step(): asserts finite data, density/depth > 0 and pressure > 0 after the step "
+          "where the event satisfies the stated preconditions (extrapol1, flux in {hlle,hllc}/{rusanov,hll}, periodic or wall "
+          "boundaries, uniform mesh, integrator in {explicit, forwardeuler, rk2_heun, rk3ssp}, effective CFL <= 1/2 recomputed from "
+          "calc_timestep, admissible state before, no neighbouring pair beyond the vacuum criterion).  Workload: two/three-state "
+          "Riemann data, random data, colliding and receding streams, ratios up to 1e3, Mach/Froude up to 3, gamma in "
+          "{1.2,1.4,5/3}, 3-60 cells, up to 50 steps, CFL exactly 1/2 in 30% of runs.  non-trivial: every run; distinct = hash(config+data).")
+
+_m("C11", "face states (pL, pR) that the real rhs leaves behind are read after each call: constant data (any model/mesh/scheme/BC, 1D "
+          "and 2D) must be reproduced exactly; linear profiles a*x+b (|a| over 10^+-3) on uniform/refined/morphed/arbitrary "
+          "monotone faces with non-periodic ends must be exact at interior faces for all k-schemes and all four limiters; the "
+          "operator matrix assembled from the real rhs on unit impulses must equal the textbook kappa circulant - exhaustive over "
+          "n=1..12 x {extrapol2, fromm, quick, extrapol3, centered, extrapolk(0.37), extrapolk(-0.6)} x both convection signs; 2D "
+          "face states on periodic grids exhaustive over nx,ny=1..5 x {extrapol2d1, extrapol2dk(-1,0,1/3,1/2,1,0.37)}.  "
+          "non-trivial: every case; distinct = hash(config).",
+   exhaustive_groups=["kappa1d (n=1..12 x 7 schemes x 2 signs)", "kappa2d (nx,ny=1..5 x 7 schemes)"])
+
+_m("C12", "the four real limiter functions are called on arrays of 4000 hostile (a,b) pairs and on scalars (all sign combinations, "
+          "ratios 10^+-12, magnitudes 1e-150..1e150, exact zeros, equal arguments, +-1 ulp neighbours, exactly opposite) and are "
+          "observed on every pair real MUSCL reconstructions feed them (wrapper installed on muscl.limiter at construction).  The "
+          "oracle asserts zero at extrema, sign, <= 2 min and <= max bounds, and re-invokes the same real function for the "
+          "symmetric, odd, scalar-vs-array, homogeneous (lambda = 2^7, 2^-5, 3.7, 1e-3) and diagonal twins.  non-trivial: every "
+          "call with at least one same-sign pair; distinct = hash(limiter, first pairs).")
